@@ -1,7 +1,7 @@
 (* C16 — Range equality, ordering and hashing cohere.  For ALL segment lists (canonical or not),
    over any decidable total order of versions. *)
 From Coq Require Import Orders List Bool.
-From PG Require Import Model.Range Model.SmallVec Model.Instances Proofs.RangeOrd Proofs.SmallVecProofs.
+From PG Require Import Model.Range Model.SmallVec Model.Instances Proofs.RangeOrd Proofs.SmallVecProofs Proofs.GenEq.
 
 Module C16 (V : UsualOrderedTypeFull).
   Module Import P := RangeOrdP V.
@@ -31,6 +31,12 @@ Module C16 (V : UsualOrderedTypeFull).
     forall l r, cmp_bounds_start l r = pos_compare (lo_of l) (lo_of r)
                 /\ cmp_bounds_end l r = pos_compare (hi_of l) (hi_of r).
   Proof. intros l r. split; [apply cmp_bounds_start_spec|apply cmp_bounds_end_spec]. Qed.
+  Module GE := GenRangeEq V.
+  (* tie to the source: the two 9-arm tables regenerated from src/range.rs on this run *)
+  Theorem range_cmp_tables_match_source :
+    (forall l r, GE.G.gen_cmp_bounds_start l r = GE.M.cmp_bounds_start l r)
+    /\ (forall l r, GE.G.gen_cmp_bounds_end l r = GE.M.cmp_bounds_end l r).
+  Proof. exact GE.range_cmp_tables_match_source. Qed.
 End C16.
 
 Module C16Z := C16 ZV.
@@ -69,6 +75,7 @@ Print Assumptions C16Z.range_cmp_total.
 Print Assumptions C16Z.range_partial_cmp_agrees.
 Print Assumptions C16Z.range_eq_iff_cmp.
 Print Assumptions C16Z.range_cmp_bounds_tables.
+Print Assumptions C16Z.range_cmp_tables_match_source.
 Print Assumptions smallvec_hash_respects_eq.
 Print Assumptions smallvec_eq_repr_independent.
 Print Assumptions smallvec_push_pop_slice.
